@@ -107,6 +107,12 @@ CHECKS['C14'] = dict(
     note='Trusted: Coq kernel, gen_tables.py (style template, contrast script, palette defaults), extraction, harness (soup -> model converter). Modelled not verified: html5-parser, BeautifulSoup tree surgery and str(); diff_elements output is an input of the assembly model. "Never crashes for any two strings" is a fact about C parsers and the interpreter stack: exploration only, labelled so.',
     design='5/C14')
 
+CHECKS['C17'] = dict(
+    technique='Coq proof that the order- and history-dependent constructs cannot influence a result (sorted(set(links)) is the same for every iteration order because the sort key is total on what the set keeps apart; scans over tag sets are existentials; lru_cache is transparent for every call history and eviction policy) + extracted-model correspondence of the sort + process-level exploration (fixed workload under hash seeds x call orders x repeated passes x process pool, digests compared; header mappings unchanged)',
+    text='Theorems: for every list of found links and every arrangement (permutation) of its de-duplicated set, sort_links gives the same list - the list handed to the matcher never depends on set iteration order, hence not on PYTHONHASHSEED; the sort key (text.lower(), href) is total on the (href, text.lower()) classes the set distinguishes and de-duplicated links have pairwise different keys; the SEPARATABLE_TAGS scans and all tag-set membership tests are invariant under permutation of the set; a memo cache in front of a pure function returns the function values for every call history and every eviction policy (instantiated for tag_info). A Gallina model is a function by construction, so purity of the model is not claimed. The process-level statement (hash seeds, sequences of calls in long-lived pool workers, native library state, header mappings) is explored: every differ of the service on a fixed workload, in fresh processes under 8 (32 thorough) hash seeds, 3 (6) call orders, repeated passes in one process and in a real process pool; all per-case digests must agree; colour variables may only change results carrying a style block; unrelated environment variables nothing. Labelled exploration in the evidence.',
+    note='Trusted: Coq kernel, extraction, harness/purity_worker.py. Not modelled: native libraries (lxml, html5-parser, diff-match-patch) global state, pickling into workers - covered by exploration only.',
+    design='5/C17')
+
 NOT_YET = {}
 
 
